@@ -92,9 +92,11 @@ def stepFrom (g : Graph) (rp : RelPat) (np : NodePat) (s : MState) (cur : Nat) :
 
 /-! ### variable length (grammar v3)
 
-`varLenPaths`: openCypher — one result per *path* (sequence of distinct relationships,
-also distinct from the ones the clause already used) of admissible length.
-`varLenDistinct`: what the engine does — one result per distinct end node. -/
+openCypher (`varLenEnds`): one result per *path* (sequence of distinct relationships, also
+distinct from the ones the clause already used) of admissible length.
+The engine (`varLenBfsEnds`): a breadth-first search over nodes — one result per reachable
+node, at its BFS depth.  `stepVarDedup` is the semantics in between ("one row per distinct
+end node of the openCypher paths"). -/
 
 /-- all walks of exactly `len` further hops from `cur`, never reusing a relationship;
 returns (end node, relationships used in walk order reversed) -/
@@ -120,11 +122,43 @@ def dedupNat : List Nat → List Nat
   | [] => []
   | x :: xs => x :: (dedupNat xs).filter (· != x)
 
-/-- a variable-length step; `distinctEnds = true` selects the engine's semantics -/
-def stepVar (g : Graph) (distinctEnds : Bool) (rp : RelPat) (np : NodePat) (lo : Nat)
+/-- nodes one matching relationship away from `cur` -/
+def neighbours (g : Graph) (rp : RelPat) (cur : Nat) : List Nat :=
+  g.rels.filterMap fun r => if relOk rp r then relTarget rp.dir cur r else none
+
+/-- the engine's `VarLengthExpandOperator`: breadth-first over **nodes** with a visited set;
+every node is reported once, with its BFS depth -/
+def bfsLevels (g : Graph) (rp : RelPat) : Nat → List Nat → List Nat → Nat → List (Nat × Nat)
+  | 0, _, _, _ => []
+  | fuel + 1, frontier, visited, d =>
+    let next := (dedupNat (frontier.flatMap (neighbours g rp))).filter (fun n => !visited.contains n)
+    if next.isEmpty then [] else
+      next.map (fun n => (n, d + 1)) ++ bfsLevels g rp fuel next (visited ++ next) (d + 1)
+
+/-- end nodes the engine reports for `*lo..hi` from `cur`: BFS depth within the bounds
+(depth 0 = the start node itself) -/
+def varLenBfsEnds (g : Graph) (rp : RelPat) (lo : Nat) (hi : Option Nat) (cur : Nat) : List Nat :=
+  let all := (cur, 0) :: bfsLevels g rp (g.nodes.length + 1) [cur] [cur] 0
+  (all.filter fun (_, d) => decide (lo ≤ d) && (match hi with | some h => decide (d ≤ h) | none => true)).map (·.1)
+
+/-- a variable-length step; `engine = true` selects the engine's BFS semantics (it also does
+not record the relationships it walked) -/
+def stepVar (g : Graph) (engine : Bool) (rp : RelPat) (np : NodePat) (lo : Nat)
     (hi : Option Nat) (s : MState) (cur : Nat) : List (MState × Nat) :=
-  let ends := varLenEnds g rp lo hi cur s.used
-  let ends := if distinctEnds then (dedupNat (ends.map (·.1))).map (fun t => (t, s.used)) else ends
+  let ends := if engine then (varLenBfsEnds g rp lo hi cur).map (fun t => (t, s.used))
+    else varLenEnds g rp lo hi cur s.used
+  ends.filterMap fun (t, used') =>
+    match g.node? t with
+    | none => none
+    | some n =>
+      match matchNode np s.row n with
+      | none => none
+      | some row2 => some (⟨row2, used'⟩, t)
+
+/-- the intermediate semantics "one row per distinct end node of the openCypher paths" -/
+def stepVarDedup (g : Graph) (rp : RelPat) (np : NodePat) (lo : Nat)
+    (hi : Option Nat) (s : MState) (cur : Nat) : List (MState × Nat) :=
+  let ends := (dedupNat ((varLenEnds g rp lo hi cur s.used).map (·.1))).map (fun t => (t, s.used))
   ends.filterMap fun (t, used') =>
     match g.node? t with
     | none => none
